@@ -22,7 +22,7 @@ fn main() {
     std::panic::set_hook(Box::new(|_| {}));
     let mut rng = Rng::new(seed);
     let mut out: Vec<Violation> = Vec::new();
-    let (mut systems, mut chains, mut links, mut exact_starts) = (0usize, 0usize, 0usize, 0usize);
+    let (mut systems, mut chains, mut links, mut exact_starts, mut near_starts) = (0usize, 0usize, 0usize, 0usize, 0usize);
     for i in 0..n {
         let mut sys = match i % 3 {
             0 => gen_planted(&mut rng, 8, 1e-2, &SHAPES),
@@ -63,6 +63,50 @@ fn main() {
                         system: Some(s.clone()),
                         extra: String::new(),
                     }),
+                }
+            }
+        }
+        // (a') near-exact start: every constraint already within the tolerance, several of them not
+        // exactly satisfied (residuals of the order of the tolerance)
+        if let Some(xs) = sys.planted.clone() {
+            for attempt in 0..3 {
+                let amp = sys.convergence_tolerance * *rng.pick(&[0.2, 0.45, 0.6]) / (1.0 + attempt as f64);
+                let g: Vec<f64> = xs.iter().map(|v| v + amp * rng.sym()).collect();
+                let mut within = !sys.reqs.is_empty();
+                let mut sizable = 0;
+                for r in &sys.reqs {
+                    let (res, _) = vh::residual(r.constraint(), &g);
+                    for k in 0..vh::residual_dim(r.constraint()) {
+                        if !(res[k].abs() <= sys.convergence_tolerance) {
+                            within = false;
+                        }
+                        if res[k].abs() > sys.convergence_tolerance / 4.0 {
+                            sizable += 1;
+                        }
+                    }
+                }
+                if within && sizable >= 2 {
+                    near_starts += 1;
+                    let mut s = sys.clone();
+                    s.guesses = g.iter().enumerate().map(|(i, v)| (i as u32, *v)).collect();
+                    match solve(&s.reqs, s.guesses.clone(), s.config()) {
+                        Ok(o) if bits(o.final_values()) == bits(&g) && o.iterations() == 0 => {}
+                        Ok(o) => out.push(Violation {
+                            property: "C11",
+                            what: format!("every constraint is within the convergence tolerance at the guesses ({sizable} residuals above a quarter of it) but the solve took {} iteration(s) and moved the values", o.iterations()),
+                            signature: "converged-guess-changed".into(),
+                            system: Some(s.clone()),
+                            extra: String::new(),
+                        }),
+                        Err(e) => out.push(Violation {
+                            property: "C11",
+                            what: format!("converged guess gives an error: {:?}", e.error),
+                            signature: "converged-guess-error".into(),
+                            system: Some(s.clone()),
+                            extra: String::new(),
+                        }),
+                    }
+                    break;
                 }
             }
         }
@@ -161,7 +205,7 @@ fn main() {
         }
     }
     println!(
-        "STATS {{\"systems\": {systems}, \"exact_starts\": {exact_starts}, \"chains\": {chains}, \"chain_links\": {links}, \"violations\": {}}}",
+        "STATS {{\"systems\": {systems}, \"exact_starts\": {exact_starts}, \"near_tolerance_starts\": {near_starts}, \"chains\": {chains}, \"chain_links\": {links}, \"violations\": {}}}",
         out.len()
     );
 }
